@@ -63,10 +63,11 @@ def items(tier, seed):
     out = []
     for n in range(NMAX[tier], -1, -1):
         if n >= 3:
-            # split by the behaviour class of the first two characters (L: contributes letters, W: whitespace only, B: anything else)
-            for c0 in "LWB":
-                for c1 in "LWB":
-                    out.append(dict(name="len%d_%s%s" % (n, c0, c1), N=n, prefix=c0 + c1))
+            # split by the behaviour class of the first characters
+            # (A: contributes exactly one letter, M: contributes several letters, W: whitespace only, B: anything else)
+            import itertools
+            for pre in itertools.product("AMWB", repeat=2 if n == 3 else 3):
+                out.append(dict(name="len%d_%s" % (n, "".join(pre)), N=n, prefix="".join(pre)))
         else:
             out.append(dict(name="len%d" % n, N=n))
     out.append(dict(name="nonstr", N=-1))
@@ -101,7 +102,7 @@ def run_item(item):
     expected_ok = z3.And(z3.And(*ok_i) if ok_i else z3.BoolVal(True), z3.Or(*nonempty_i) if nonempty_i else z3.BoolVal(False))
     contrib = [FD([(v == k, c) for k, (ok, c) in enumerate(pieces)]) for v in vs]
     for i, cl in enumerate(item.get("prefix", "")):
-        sel = {"L": lambda ok, c: ok and c != "", "W": lambda ok, c: ok and c == "", "B": lambda ok, c: not ok}[cl]
+        sel = {"A": lambda ok, c: ok and len(c) == 1, "M": lambda ok, c: ok and len(c) > 1, "W": lambda ok, c: ok and c == "", "B": lambda ok, c: not ok}[cl]
         I.solver.add(z3.Or(*[vs[i] == k for k, (ok, c) in enumerate(pieces) if sel(ok, c)]))
 
     def cex(m):
